@@ -1,6 +1,6 @@
 #!/bin/sh
 # usage: chain.sh   (meant for `vp run --with-repo -- tools/chain.sh`)
 # Quick sweeps at three base seeds, the regression of every seeded change, then a thorough sweep.
-for seed in 1 2 3 4; do echo "##### quick sweep seed $seed"; tools/sweep.sh quick 0 $seed; done
+for seed in 1 2 3; do echo "##### quick sweep seed $seed"; tools/sweep.sh quick 0 $seed; done
 echo "##### allseeds"; tools/allseeds.sh 25
 echo "##### thorough sweep"; tools/sweep.sh thorough 150 11
